@@ -721,6 +721,9 @@ func (c *evalCtx) call(x *ECall) val {
 		argN(2)
 		a, b := c.eval(x.Args[0]), c.eval(x.Args[1])
 		return val{t: fmt.Sprintf("(str.prefixof %s %s)", b.t, a.t), typ: tBool}
+	case "allocmark": // allocmark(): the allocation counter of the evaluation state (refs <= it existed then)
+		argN(0)
+		return val{t: c.st().alloc, typ: tMathInt}
 	case "fresh": // fresh(p): p was allocated during the call
 		argN(1)
 		v := c.eval(x.Args[0])
